@@ -20,3 +20,9 @@ func nativeYield() {}
 
 // StartAll lets the goroutines started with Go run up to their first blocking point.
 func StartAll() {}
+
+// ThreadID is 0 on the harness goroutine and k on the k-th goroutine started with Go.
+func ThreadID() int { return 0 }
+
+// Park holds the calling goroutine until every other goroutine is finished, blocked or parked too.
+func Park() {}
